@@ -294,6 +294,8 @@ def run(ctx, rep_):
     run_optable(ctx, rep_, F)
     return_marking(F, rep_, "C02.return-marking")
     member_names_unique(F, rep_)
+    opassign_result_storable(F, rep_)
+    value_functions_check_their_exit(F, rep_)
     from props import _identity
     _identity.zip_lengths(F, rep_, "C02.zip-length")
     # the typing guards whose loss makes an accepted program fail with a dynamic type error (shared with C03 (c))
@@ -416,3 +418,110 @@ def member_names_unique(F, rep, rule="C02.member-unique"):
         verdicts.append(c.bb not in reach_plain)
     rep.ob(rule, "ClassBody::get_members refuses a second member of a name (constructors are reported by Parser::class_body)",
            "ok" if all(verdicts) else "violated", "%d scan(s), %d constructor by-pass edge(s)" % (len(scans), len(bypass)), pushes[0].span, fn=f.path, key=rule)
+
+
+
+def value_functions_check_their_exit(F, rep, rule="C02.return-required"):
+    """A function, method or constructor whose signature promises a value is accepted only if its body returns on every path; the parser
+    knows that from the status of the function scope (`did_scope_exit_with_value_if_required`).  Every parser function that opens a function
+    scope whose status can be `Should(..)` asks that question after it parsed the body, and an Ok return is reachable only on its true
+    side.  (A scope opened with a constant `Void` status has nothing to ask.)"""
+    PUSH = "compiler::parser::AssocFileData::push_function"
+    DID = "compiler::parser::AssocFileData::did_scope_exit_with_value_if_required"
+    n = 0
+    for f in F.crates["compiler"].fns:
+        pushes = f.calls_to(PUSH)
+        if not pushes:
+            continue
+        for c in pushes:
+            l = op_local(c.args[1]) if len(c.args) > 1 else None
+            org = rules.origins(f, l) if l is not None else set()
+            variants = set()
+            for o in org:
+                if o[0] == "agg":
+                    for bi, si, dst, rv, s_ in f.assigns():
+                        if bi == o[1] and si == o[2] and "agg" in rv:
+                            variants.add(rv["agg"].get("v"))
+                else:
+                    variants.add("?")
+            if variants and variants <= {"Void", "No"}:
+                rep.ob(rule, "%s opens a function scope that never owes a value" % mir.short(f.path), "ok", "status: %s" % sorted(variants), c.span, fn=f.path,
+                       key="%s|%s|void" % (rule, mir.short(f.path)))
+                continue
+            n += 1
+            blocks_ = [b for b in f.calls() if b.callee().endswith("::block") and "Parser" in b.callee()]
+            dids = f.calls_to(DID)
+            key = "%s|%s" % (rule, mir.short(f.path))
+            inst = "%s accepts a value-returning body only if every path of it returns" % mir.short(f.path)
+            if not dids:
+                rep.ob(rule, inst, "violated", "the scope's exit status is never consulted: `fn m(self, n: int) -> int { if n > 0 { return 1 } }` is accepted and a "
+                       "call that takes the other path yields no value (run-time `store can only store a single item`)", c.span, fn=f.path, key=key)
+                continue
+            after_body = set()
+            for b in blocks_:
+                if b.target is not None:
+                    after_body |= f.reachable(b.target)
+            oks = [b for b in rules.ok_return_blocks(f) if b in after_body] if blocks_ else rules.ok_return_blocks(f)
+            v, info = rules.guarded_by_bool(f, oks, [d.dst["l"] for d in dids], want=True)
+            rep.ob(rule, inst, v, "" if v == "ok" else str(info), dids[0].span, fn=f.path, key=key)
+    rep.floor(rule + " parser functions opening a value-owing function scope", n, 2)
+
+
+def opassign_result_storable(F, rep, rule="C02.opassign-result"):
+    """`x op= y` computes `x op y` and stores the result back into x, whose static type stays what it was.  The operator table alone accepts
+    `int += float` (result float) and `int += str` (result str): the checker has to compare the result type with the target's type.  In
+    Expr::for_type, on the path where Op::is_op_assign() holds, an Ok return after get_output_type is reachable only through the passing edge
+    of a type comparison (eq_complex / ==) that involves the value get_output_type returned."""
+    ft = F.fn("compiler::ast::math_expr::Expr::for_type")
+    if ft is None:
+        raise AnchorMissing("Expr::for_type")
+    gots = ft.calls_to("compiler::ast::r#type::TypeLayout::get_output_type")
+    isop = ft.calls_to("compiler::ast::math_expr::Op::is_op_assign")
+    if not gots or not isop:
+        raise AnchorMissing("get_output_type / is_op_assign in Expr::for_type")
+    thr = rules.TRANSPARENT | {rules.TRY_BRANCH, "anyhow::Context::with_context", "anyhow::Context::context"}
+    cmps = []
+    for c in ft.calls():
+        if not (c.callee().endswith("TypeLayout::eq_complex") or (c.callee().endswith(("::eq", "::ne")) and any("TypeLayout" in ft.locals[op_local(a)] for a in c.args if op_local(a) is not None))):
+            continue
+        org = []
+        for a in c.args:
+            l = op_local(a)
+            if l is not None:
+                org += rules.origin_calls(ft, l, transparent=thr)
+        if any(o.bb in {g.bb for g in gots} for o in org):
+            cmps.append(c)
+    if not cmps:
+        rep.ob(rule, "a compound assignment is accepted only when the operator's result can be stored back into the target", "violated",
+               "the result type of get_output_type is never compared with the target's type: `x = 5; x += 1.5` is accepted and x, still typed int, holds 6.5",
+               gots[0].span, fn=ft.path, key=rule)
+        return
+    # Ok returns after get_output_type, on the op-assign side, only through the passing edge of the comparison
+    removed = set()
+    der_op = ft.derived([c.dst["l"] for c in isop])
+    for bb, t_t, f_t, pol in rules.bool_switches(ft, der_op):
+        if pol is not None:
+            removed.add((bb, f_t if pol else t_t))       # not an op-assign: nothing to check
+    der_c = ft.derived([c.dst["l"] for c in cmps])
+    n = 0
+    for bb, t_t, f_t, pol in rules.bool_switches(ft, der_c):
+        if pol is not None:
+            removed.add((bb, t_t if pol else f_t))       # comparison passed
+            n += 1
+    after = set()
+    for g in gots:
+        if g.target is not None:
+            after |= ft.reachable(g.target, removed_edges=removed)
+    oks = [b for b in rules.ok_return_blocks(ft) if b in after]
+    # an Ok return still reachable means: op-assign, comparison not passed (or not consulted), accepted anyway
+    still = []
+    for b in oks:
+        # only returns whose payload is the operator's result matter
+        still.append(b)
+    reach_from_opassign = set()
+    for c in isop:
+        reach_from_opassign |= ft.reachable(c.target, removed_edges=removed) if c.target is not None else set()
+    bad = [b for b in still if b in reach_from_opassign]
+    rep.ob(rule, "a compound assignment is accepted only when the operator's result can be stored back into the target",
+           "ok" if n and not bad else "violated", "%d comparison(s) of the result with the target type; unguarded Ok returns: %s" % (len(cmps), bad), cmps[0].span,
+           fn=ft.path, key=rule)
